@@ -3,7 +3,8 @@ import VM.Compose
 /-! Line-protocol driver for compose (slice C19).
 
     T <id> <n>
-    N <ret t|z> <usearg 0|1> <const 0|1> <flag j|-> <pred>*     node i; value ("n<i>", *args) or 0 (ret z)
+    N <ret t|z> <usearg 0|1> <const 0|1> <flag j|-> <pred>*     node i; value ("n<i>", *args, *(kw, v)) or 0 (ret z);
+                                                                pred ::= [<kw>:]<j>[/0]   (keyword name, index-0 key path)
     Q <k> <out>^k <m> <in>^m <value>^m                          holders: x = n (required), y = n+1 (default 7)
     E
     -> <id> <q> OK <value>^k | MISSING | INPUTDEP | FAIL | OPEN (closure hypothesis of the C19 theorem fails)
@@ -25,14 +26,31 @@ where
     | 0, r => some ([], r)
     | n+1, r => do let (v, r1) ← pVal r; let (vs, r2) ← pVals n r1; pure (v :: vs, r2)
 
+/-- a predecessor use: node index, optional index-0 key path, optional keyword name -/
+structure PUse where
+  src : Nat
+  idx0 : Bool
+  kw : Option String
+
 structure NSpec where
   retz : Bool
   usearg : Bool
   const : Bool
   flag : Option Nat
-  preds : List Nat
+  preds : List PUse
 
 def dflt : NSpec := ⟨false, false, false, none, []⟩
+
+def parsePUse (s : String) : Option PUse :=
+  let (kw, rest) := match s.splitOn ":" with
+    | [k, r] => (some k, r)
+    | _ => (none, s)
+  match rest.splitOn "/" with
+  | [j] => j.toNat?.map fun n => ⟨n, false, kw⟩
+  | [j, _] => j.toNat?.map fun n => ⟨n, true, kw⟩
+  | _ => none
+
+def puseRef (p : PUse) : Ref := ⟨p.src, if p.idx0 then [Key.idx 0] else []⟩
 
 def mkCfg (specs : Array NSpec) : ECfg Val :=
   let n := specs.size
@@ -40,13 +58,16 @@ def mkCfg (specs : Array NSpec) : ECfg Val :=
     recOf := fun i =>
       let sp := specs.getD i dflt
       { fn := toString i,
-        args := sp.preds.map (fun p => (⟨p, []⟩ : Ref)) ++ (if sp.const then [⟨n + 2 + i, []⟩] else [])
+        args := (sp.preds.filter (fun p => p.kw.isNone)).map puseRef ++ (if sp.const then [⟨n + 2 + i, []⟩] else [])
                 ++ (if sp.usearg then [⟨n, []⟩, ⟨n + 1, []⟩] else []),
-        kwargs := [], active := sp.flag.map (fun j => (⟨j, []⟩ : Ref)) },
-    interp := fun f args _ =>
+        kwargs := (sp.preds.filterMap fun p => p.kw.map fun k => (k, puseRef p)),
+        active := sp.flag.map (fun j => (⟨j, []⟩ : Ref)) },
+    interp := fun f args kws =>
       match f.toNat? with
       | none => .error .usage
-      | some i => if (specs.getD i dflt).retz then .ok (.int 0) else .ok (.tuple (.str s!"n{i}" :: args)),
+      | some i =>
+        if (specs.getD i dflt).retz then .ok (.int 0)
+        else .ok (.tuple (.str s!"n{i}" :: args ++ kws.map fun p => .tuple [.str p.1, p.2])),
     init := fun x => if x = n + 1 then some (.int 7) else if x ≥ n + 2 then some (.int 7) else none }
 
 def takeNats (k : Nat) (t : Toks) : List Nat × Toks := ((t.take k).filterMap String.toNat?, t.drop k)
@@ -69,7 +90,7 @@ def main : IO Unit := do
       for j in [0:n] do
         match toks (lines[i + 1 + j]!) with
         | "N" :: rt :: ua :: cs :: fl :: ps =>
-          specs := specs.push ⟨rt == "z", ua == "1", cs == "1", fl.toNat?, ps.filterMap String.toNat?⟩
+          specs := specs.push ⟨rt == "z", ua == "1", cs == "1", fl.toNat?, ps.filterMap parsePUse⟩
         | _ => pure ()
       let c := mkCfg specs
       i := i + 1 + n
